@@ -25,8 +25,32 @@ class Gen07(c01.Gen):
       return ['q']
     return super().atom()
 
+  def static_history(self):
+    """construction, seal / unseal of inner nodes, clones — no mutation, no offered nodes: the
+    stream that may hold pg.Ref to existing nodes, inferred values and individually sealed
+    inner containers."""
+    r = self.r
+    self.static = True
+    try:
+      ops = []
+      for _ in range(r.randint(1, 3)):
+        ops.append({'op': 'new', 'v': self.container(r.randint(1, 4), 0.0, True)})
+      for _ in range(r.randint(1, 8)):
+        k = r.below(10)
+        if k < 3:
+          ops.append({'op': 'seal', 't': r.below(64), 'flag': r.chance(0.6)})
+        elif k < 9:
+          ops.append({'op': 'clone', 't': r.below(64) if r.chance(0.6) else 0, 'deep': r.chance(0.5)})
+        else:
+          ops.append({'op': 'new', 'v': self.container(r.randint(1, 3), 0.0, True)})
+      return {'ops': ops}
+    finally:
+      self.static = False
+
   def history(self, max_ops=25):
     r = self.r
+    if r.chance(0.3):
+      return self.static_history()
     ops = []
     for _ in range(r.randint(1, 2)):
       v = self.container(r.randint(1, 4), 0.1, True)
@@ -34,7 +58,9 @@ class Gen07(c01.Gen):
     n = r.randint(2, max_ops)
     off = r.weighted([(6, 0.0), (4, 0.3)])
     for i in range(n):
-      if i == 0 or r.chance(0.18):
+      if r.chance(0.08):
+        ops.append({'op': 'seal', 't': r.below(64), 'flag': r.chance(0.7)})
+      elif i == 0 or r.chance(0.18):
         ops.append({'op': 'clone', 't': r.below(64) if r.chance(0.5) else 0, 'deep': r.chance(0.5), 'n': True})
       else:
         ops.append(self.op(off))
@@ -47,7 +73,10 @@ def content(r, n):
   if not r.is_node(n):
     a = r.atom(n)
     return ['obj', id(n)] if isinstance(a, list) and a and a[0] == 'q' else a
-  return [r.kind(n), [bool(n.is_sealed), bool(n.accessor_writable), bool(n.allow_partial)],
+  kind = r.kind(n)
+  if kind == ['o', 2]:
+    kind = ['o', 2, id(n.value)]
+  return [kind, [bool(n.is_sealed), bool(n.accessor_writable), bool(n.allow_partial)],
           [[r.key_j(k), content(r, c)] for k, c in r.children(n)]]
 
 
@@ -102,10 +131,18 @@ def check_clone(r, orig, clone, deep, before):
       fy = (y.is_sealed, y.accessor_writable, y.allow_partial)
       if fx != fy:
         which = [n for n, p, q in zip(('sealed', 'accessor_writable', 'allow_partial'), fx, fy) if p != q]
-        return ('flags:%s:%s' % (r.kind(x) if isinstance(r.kind(x), str) else 'o', '+'.join(which)),
+        kx = r.kind(x)
+        ks = kx if isinstance(kx, str) else 'r' if kx == ['o', 2] else 'o'
+        if which == ['sealed'] and fy[0] and x is not orig:
+          # an inner node that was unsealed below a sealed ancestor comes back sealed
+          return ('resealed:%s' % ks, 'inner node at %r is unsealed in the original and sealed in the clone '
+                  '(the constructor of a sealed clone seals everything below)' % str(x.sym_path))
+        return ('flags:%s:%s' % (ks, '+'.join(which)),
                 'flags (sealed, accessor_writable, allow_partial) %s vs %s at %r' % (fx, fy, str(x.sym_path)))
       if getattr(x, 'value_spec', None) is not getattr(y, 'value_spec', None) and not isinstance(x, pg.Dict):
         return ('spec', 'value_spec differs at %s' % x.sym_path)
+      if isinstance(x, pg.Ref) and x.value is not y.value:
+        return ('ref-target', 'the clone of a pg.Ref at %r refers to another object' % str(x.sym_path))
     la, lb = leaves(r, orig, []), leaves(r, clone, [])
     if len(la) != len(lb):
       return ('not-equal', 'leaf objects differ')
@@ -114,7 +151,18 @@ def check_clone(r, orig, clone, deep, before):
         return ('deep-shares-leaf', 'deep clone shares a non-symbolic leaf object')
       if not deep and x is not y:
         return ('shallow-copies-leaf', 'shallow clone does not share a non-symbolic leaf object')
-    if not (deep and la) and not pg.eq(orig, clone):
+      if deep:
+        # independence of the leaf's inner state: mutate through one copy, read through the other
+        x.inner.append(1)
+        shared = (y.inner == x.inner) or (x.inner is y.inner)
+        x.inner.pop()
+        if shared:
+          return ('deep-shares-leaf-state', 'a mutation of the inner state of a leaf object of the '
+                  'original is visible through the deep clone')
+    if _blind(_noflags(content(r, orig))) != _blind(_noflags(content(r, clone))):
+      return ('not-equal', 'the clone differs from the original in classes, keys, leaves or Ref targets')
+    if not any(r.kind(x) == ['o', 3] for x in a) and not pg.eq(orig, clone):
+      # (pg.eq evaluates list items; it raises on a parent-inferred value that cannot be inferred)
       return ('not-equal', 'pg.eq(original, clone) is False')
   # copy.copy / copy.deepcopy coincide with clone(deep)
   other = copy.deepcopy(orig) if deep else copy.copy(orig)
@@ -125,6 +173,13 @@ def check_clone(r, orig, clone, deep, before):
     return ('copy-module', 'copy.%s differs from clone(deep=%s)' % ('deepcopy' if deep else 'copy', deep))
   r.check_root = clone
   return None
+
+
+def _noflags(c):
+  if isinstance(c, list) and len(c) == 3 and isinstance(c[1], list) and len(c[1]) == 3 and \
+      all(isinstance(b, bool) for b in c[1]) and isinstance(c[2], list):
+    return [c[0], [[k, _noflags(v)] for k, v in c[2]]]
+  return c
 
 
 def _blind(c):
@@ -145,7 +200,9 @@ class C07(c01.C01):
   id = 'C07'
   props_modules = ['PgProps.C07']
   driver = 'drv_c07'
-  rule = ('histories: 1-2 constructions (Dict/List/2 Object classes, flags incl. sealed / '
+  rule = ('30 % mutation-free histories (constructions with pg.Ref to existing nodes / to plain lists, '
+          'parent-inferred values, individually sealed inner containers; seal / unseal of arbitrary nodes; '
+          'clones of arbitrary nodes); 70 % histories: 1-2 constructions (Dict/List/2 Object classes, flags incl. sealed / '
           'accessor_writable / allow_partial at several depths, non-symbolic leaf objects), then 2-25 '
           'calls, 18 % of them clone(deep or shallow) of an arbitrary node, the rest drawn from the '
           'whole mutator surface of C01 applied to arbitrary nodes of either copy; the model dump is '
